@@ -158,7 +158,7 @@ class CallMixin:
             v = self.ev(node.args[0], st, cx)
             k = unopt(v.k)
             if k.head in ("list", "vtuple"):
-                mem = ops.mem_of_list(self.R(st, v), ref(v.t))
+                mem = ops.mem_of_list(self.R(st, v), ref(v.t), st)
                 r = ops.new_set(st, mem)
                 n = ops.l_len(self.R(st, v), ref(v.t))
                 card = set_card(ops.s_mem(st, r))
@@ -168,6 +168,12 @@ class CallMixin:
             if k.head == "set":
                 return SV(VRef(ops.new_set(st, ops.s_mem(self.R(st, v), ref(v.t)))), k)
             raise OutOfSubset("set() of kind %r" % (v.k,))
+        if name == "seq_key":
+            v = self.ev(node.args[0], st, cx)
+            r = ref(v.t)
+            sv_ = self.R(st, v)
+            from .sorts import seq_of
+            return SV(seq_of(ops.l_len(sv_, r), ops.l_el(sv_, r)), ANY)
         if name == "Counter":
             v = self.ev(node.args[0], st, cx)
             r = ref(v.t)
@@ -347,6 +353,15 @@ class CallMixin:
         if meth == "copy":
             sr = self.R(st, recv)
             return SV(VRef(ops.new_list(st, ops.l_len(sr, r), ops.l_el(sr, r))), k)
+        if meth == "index" and recv.h is not None:
+            sr = self.R(st, recv)
+            v = self.ev(node.args[0], st, cx)
+            eqf = self.elem_eq(sr, ek, self.R(st, v))
+            i = fresh("idx", IntS)
+            j = bvar("j")
+            st.assume(z3.And(0 <= i, i < ops.l_len(sr, r), eqf(ops.l_get(sr, r, i), v.t)))
+            st.assume(z3.ForAll([j], z3.Implies(z3.And(0 <= j, j < i), z3.Not(eqf(ops.l_get(sr, r, j), v.t)))))
+            return SInt(i)
         if recv.h is not None:
             raise OutOfSubset("list.%s on a value of an old heap" % meth)
         if meth == "append":
@@ -372,7 +387,8 @@ class CallMixin:
         if meth == "index":
             v = self.ev(node.args[0], st, cx)
             eqf = self.elem_eq(st, ek)
-            self.oblige("safety/list.index", st, ops.l_contains(st, r, v.t, eqf), line, kind="safety")
+            if not cx.spec:
+                self.oblige("safety/list.index", st, ops.l_contains(st, r, v.t, eqf), line, kind="safety")
             i = fresh("idx", IntS)
             j = bvar("j")
             st.assume(z3.And(0 <= i, i < ops.l_len(st, r), eqf(ops.l_get(st, r, i), v.t)))
@@ -418,7 +434,7 @@ class CallMixin:
             if kk.head == "set":
                 return ops.s_mem(self.R(st, v), ref(v.t))
             if kk.head in ("list", "vtuple"):
-                return ops.mem_of_list(self.R(st, v), ref(v.t))
+                return ops.mem_of_list(self.R(st, v), ref(v.t), st)
             raise OutOfSubset("set.%s with %r" % (meth, v.k))
         if meth == "add":
             v = self.ev(node.args[0], st, cx)
@@ -430,17 +446,17 @@ class CallMixin:
             return SV(VNone, NONE)
         if meth == "update":
             om = other_mem()
-            ops.write_set(self, st, r, z3.Lambda([x], z3.Or(z3.Select(mem, x), z3.Select(om, x))), line)
+            ops.write_set(self, st, r, ops.mk_array(st, x, z3.Or(z3.Select(mem, x), z3.Select(om, x)), pats=[z3.Select(mem, x), z3.Select(om, x)]), line)
             return SV(VNone, NONE)
         if meth == "union":
             om = other_mem()
-            return SV(VRef(ops.new_set(st, z3.Lambda([x], z3.Or(z3.Select(mem, x), z3.Select(om, x))))), k)
+            return SV(VRef(ops.new_set(st, ops.mk_array(st, x, z3.Or(z3.Select(mem, x), z3.Select(om, x)), pats=[z3.Select(mem, x), z3.Select(om, x)]))), k)
         if meth == "intersection":
             om = other_mem()
-            return SV(VRef(ops.new_set(st, z3.Lambda([x], z3.And(z3.Select(mem, x), z3.Select(om, x))))), k)
+            return SV(VRef(ops.new_set(st, ops.mk_array(st, x, z3.And(z3.Select(mem, x), z3.Select(om, x)), pats=[z3.Select(mem, x), z3.Select(om, x)]))), k)
         if meth == "difference":
             om = other_mem()
-            return SV(VRef(ops.new_set(st, z3.Lambda([x], z3.And(z3.Select(mem, x), z3.Not(z3.Select(om, x)))))), k)
+            return SV(VRef(ops.new_set(st, ops.mk_array(st, x, z3.And(z3.Select(mem, x), z3.Not(z3.Select(om, x))), pats=[z3.Select(mem, x), z3.Select(om, x)]))), k)
         if meth == "copy":
             return SV(VRef(ops.new_set(st, mem)), k)
         if meth == "isdisjoint":
@@ -523,8 +539,11 @@ class CallMixin:
             fn = self.observer_fn(key, len(ps) + (1 if "self" in env else 0))
             zs = ([env["self"].t] if "self" in env else []) + [env[p].t for p in ps]
             t = fn(*zs)
-            assume_typed(st, t, ret)
-            res = SV(t, ret)
+            # objects reached through observers of opaque collaborators are read in the ENTRY heap: the function
+            # under verification is assumed not to mutate them (a direct write through such a value is rejected)
+            frozen = getattr(self, "entry", None) if con.get("frozen", True) else None
+            assume_typed(st, t, ret, frozen)
+            res = SV(t, ret, frozen)
             for e in con.get("ensures", []):
                 name, src = e if isinstance(e, tuple) else (None, e)
                 st.assume(self.formula(src, st, Ctx(spec=True, pre=pre_state, pre_env=env, result=res,
